@@ -182,7 +182,9 @@ def run_class(rng, res: CaseResult, cache_kind):
     src = 'class K:\n' + shared_line + '    def __init__(self, cache):\n        self.cache = cache\n' + ''.join(method_source(m) for m in methods)
     # second class: same method names but another version -> must not share entries when using the same own cache
     methods_v = [dict(m, version=('9' if m['version'] != '9' else '8'), bare=False, shared_deco=False) for m in methods]
-    src += 'class KV:\n    def __init__(self, cache):\n        self.cache = cache\n' + ''.join(method_source(m) for m in methods_v)
+    derived = rng.random() < 0.5
+    # (half of the time the second class overrides the methods of the first under another version; the base implementations stay reachable on its objects)
+    src += f'class KV{"(K)" if derived else ""}:\n    def __init__(self, cache):\n        self.cache = cache\n' + ''.join(method_source(m) for m in methods_v)
     ns = {'cached': tcache.cached, '_exec': _exec}
     exec(src, ns)
     try:
@@ -201,10 +203,15 @@ def run_class(rng, res: CaseResult, cache_kind):
         bindings = {m['name']: [] for m in methods}
         n_calls = rng.randint(6, 24)
         for step in range(n_calls):
-            use_v = rng.random() < 0.15
+            use_v = rng.random() < (0.3 if derived else 0.15)
             mlist = methods_v if use_v else methods
             m = rng.choice(mlist)
             target = objv if use_v else obj
+            base_on_derived = derived and not use_v and rng.random() < 0.3
+            if base_on_derived:
+                # super().m(...): the base implementation (its name and version) on an object of the overriding class
+                target = super(ns['KV'], objv)
+                res.count('base_version_calls_on_overriding_object')
             prev = bindings[m['name']]
             if prev and rng.random() < 0.6:
                 base = rng.choice(prev)
@@ -236,7 +243,7 @@ def run_class(rng, res: CaseResult, cache_kind):
                 if rng.random() < 0.3:
                     control['force_cache'] = True
             n_before = len(execs)
-            call_desc = {'class': 'KV' if use_v else 'K', 'method': m['name'], 'version': m['version'], 'args': args, 'kwargs': kwargs, **control}
+            call_desc = {'class': 'KV' if use_v else ('K on a KV(K) object' if base_on_derived else 'K'), 'method': m['name'], 'version': m['version'], 'args': args, 'kwargs': kwargs, **control}
             seq.append(call_desc)
             wit = {'source': src, 'cache': cache_kind, 'calls': seq}
             failing = control == {'force_cache': True} and rng.random() < 0.3
